@@ -3,7 +3,7 @@ AggregatedProgressCallback, StreamReaderProgress, request tasks (_main of Put/Up
 Used by C01 (byte exactness), C09 (progress), C02."""
 import z3
 
-from pyvc.contracts import Any, Bool, BytesT, ExtSpec, ExtT, Int, ListOfT, LoopSpec, MapT, ObjT, OptT, Str
+from pyvc.contracts import Any, Bool, BytesT, Const, ExtSpec, ExtT, Int, ListOfT, LoopSpec, MapT, ObjT, OptT, Str
 from pyvc.values import BytesV, ExcV, Opaque, Opt, Ref, to_int_term
 
 from .a_common import UT, is_none
@@ -156,6 +156,33 @@ def register(R):
     toggles('enable_callback', True)
     toggles('disable_callback', False)
     R.mark_inline(f'{RFC}.signal_transferring', f'{RFC}.signal_not_transferring', f'{RFC}.__exit__', f'{RFC}.__enter__')
+
+    # botocore 'request-created' handlers: reporting of an upload body is switched off while botocore prepares the request
+    # and on again when it is about to be sent -- for PutObject / UploadPart bodies, nothing else
+    def request_body(eng, st, recv, args, kwargs):
+        key = ('request_body', recv.label)
+        if key not in st.ghost:
+            st.ghost[key] = eng.make_symbolic(ObjT(RFC), 'request_body', st)
+        return st.ghost[key]
+
+    R.external('aws_request', **{'.body': ExtSpec(returns=request_body, pure=True)})
+
+    def signal_contract(name, val):
+        def checks(c):
+            body = c.new.st.ghost.get(('request_body', c.a_request.label))
+            if body is None:
+                return {'only_upload_bodies_are_touched': B(c.a_operation_name not in ('PutObject', 'UploadPart'))}
+            en1 = b2z(c.new.f(body, '_callbacks_enabled'))
+            en0 = b2z(c.old.f(body, '_callbacks_enabled')) if body.oid in c.old.st.heap else en1
+            if c.a_operation_name in ('PutObject', 'UploadPart'):
+                return {'reporting_of_the_upload_body_is_' + ('on' if val else 'off'): en1 == B(val)}
+            return {'other_operations_bodies_untouched': en1 == en0}
+        R.contract(f'{UT}:{name}', props=['C09'], params=dict(request=ExtT('aws_request'), operation_name=Str),
+                   param_alternatives={'operation_name': [(n, Const(n)) for n in ('PutObject', 'UploadPart', 'GetObject')]},
+                   setup=lambda eng, st, args, self_val: request_body(eng, st, args['request'], (), {}),
+                   checks=checks, raises={}, top_level=True)
+    signal_contract('signal_not_transferring', False)
+    signal_contract('signal_transferring', True)
 
     def close_checks(c):
         loops = [e for e in c.trace if e.kind == 'loop']
